@@ -227,6 +227,33 @@ theorem wrong_key_rejected {K H C : Type} (A : Aead K (Aad H) C) (hfree : Aead.F
       simp [writeFrames, writeFrom] at h2
       exact absurd h2.1.1 (by decide)
 
+/-- The end-of-stream check over the `io.Reader` contract: whatever `(n, err)` a contract-abiding reader
+returns for the one-byte probe — data and `io.EOF` together, a short read, `(0, nil)` — the verdict "clean end"
+implies that NO byte is left in the stream; equivalently, any remaining byte is reported (as trailing data or as
+a stream that did not end). `n` is examined before `err` (`Tie.read_sites_n_first`). -/
+theorem eof_check_contract (rest : Bytes) (r : ReadRes) (hv : ValidRead rest 1 r) (h : requireEOF r = .clean) :
+    rest = [] := by
+  obtain ⟨hn, he⟩ := requireEOF_clean h
+  have := hv.2.2 he
+  exact List.eq_nil_of_length_eq_zero (by omega)
+
+/-- ... and the order matters: a check that looks at `err` first accepts a stream with a byte left, on a reader
+that returns its last byte together with `io.EOF` (`testing/iotest.DataErrReader`, HTTP bodies, decompressors). -/
+theorem eof_check_err_first_unsound :
+    ∃ (rest : Bytes) (r : ReadRes), rest ≠ [] ∧ ValidRead rest 1 r ∧ requireEOFErrFirst r = .clean :=
+  ⟨[7], ⟨1, true⟩, by simp, by simp [ValidRead], by decide⟩
+
+/-- `frames_authentic` whatever chunking the reader uses: if the envelope reader — with ANY contract-abiding
+answer to its end-of-stream probe — accepts, then the stream is exactly the written one and nothing follows the
+final frame. (The framing reads go through `io.ReadFull`, which is chunking-independent by its own contract.) -/
+theorem frames_authentic_any_reader {K H C : Type} (A : Aead K (Aad H) C) (hfree : Aead.Free A)
+    (k : K) (hh0 : H) (chunks : List Bytes) (hh : H) (fs : List (Frame C)) (tail : Tail) (ps : List Bytes)
+    (probe : Probe) (hprobe : probe.Valid)
+    (hauth : ∀ f ∈ fs, (∃ a p, f.ct = A.sealIt k a p) → f.ct ∈ cts (writeFrames A k hh0 chunks))
+    (hacc : readFramesVia A k hh probe 0 fs tail = .ok ps) :
+    hh = hh0 ∧ fs = writeFrames A k hh0 chunks ∧ tail = Tail.clean ∧ ps = chunks :=
+  frames_authentic A hfree k hh0 chunks hh fs tail ps hauth (readFramesVia_accept A k hh probe hprobe fs 0 tail ps hacc)
+
 /-! ## (a) `Load`: verification of ALL fragments precedes every write -/
 
 /-- `verify_before_write`: in the model of `Load` every `BatchOperation` comes after the successful
@@ -364,6 +391,41 @@ theorem count_edit_consistent_rejected {D R σ : Type} [DecidableEq D] (E : Load
     (load E m' dir).err.isSome = true ∧ ∀ ev ∈ (load E m' dir).trace, ev.isBatch = false := by
   refine ((manifest_edit_safe E m' dir).1 f' hf b hget).1 recs hdec ?_
   rcases hcount with h | h <;> omega
+
+/-- `manifest_decode_total_input`: `readManifest` consumes the WHOLE file. `parseValue` is any JSON value parser
+that reads a prefix (`hprefix`: what follows the value does not change the value). If manifest.json decodes to
+`m`, then the same file extended by `tail` decodes (to the same `m`) iff `tail` is JSON white space only — a stray
+brace, a NUL, garbage text or a whole second document make `Load` fail with no write. (`json.Unmarshal` on the
+whole byte slice: `Tie.json_decoders_total`.) -/
+theorem manifest_decode_total_input {D R σ : Type} [DecidableEq D] (E : LoadEnv D R σ)
+    (parseValue : Bytes → Option (Man D × Bytes))
+    (hprefix : ∀ bs m rest tail, parseValue bs = some (m, rest) → parseValue (bs ++ tail) = some (m, rest ++ tail))
+    (bs tail : Bytes) (m : Man D) (dir : Dir) (hdec : decodeWhole parseValue bs = some m) :
+    (tail.all isJsonSpace = true → decodeWhole parseValue (bs ++ tail) = some m) ∧
+    (tail.all isJsonSpace = false →
+      decodeWhole parseValue (bs ++ tail) = none ∧
+      (loadBytes E parseValue (bs ++ tail) dir).err = some .manifest ∧ (loadBytes E parseValue (bs ++ tail) dir).trace = []) := by
+  unfold decodeWhole at hdec
+  split at hdec
+  · cases hdec
+  · rename_i m0 rest hp
+    split at hdec
+    · rename_i hrest
+      injection hdec with hm
+      subst hm
+      have hp' := hprefix bs m0 rest tail hp
+      refine ⟨?_, ?_⟩
+      · intro ht
+        unfold decodeWhole
+        rw [hp']
+        simp [List.all_append, hrest, ht]
+      · intro ht
+        have hnone : decodeWhole parseValue (bs ++ tail) = none := by
+          unfold decodeWhole
+          rw [hp']
+          simp [List.all_append, hrest, ht]
+        refine ⟨hnone, ?_, ?_⟩ <;> simp [loadBytes, hnone]
+    · cases hdec
 
 /-- ids of the node records of ONE graph (all its fragments as they are in the directory) -/
 def graphNodeIds {D σ : Type} (E : LoadEnv D IdRec σ) (codec : Nat) (dir : Dir) (g : GraphM D) : List Str :=
